@@ -126,6 +126,11 @@ fn apply_op(j: &mut Value, op: [u16; 4], attacker: &PeerKey, rep: &mut TamperRep
             let ln = j["trace"][i]["fold"]["lore"].as_array()?.len();
             let e = pick(op[2], ln);
             let lore = &mut trace_mut(j)[i]["fold"]["lore"];
+            // an earlier operation of the same case may have removed a descriptor
+            let descs = lore[e]["desc"].as_array().map(|a| a.len()).unwrap_or(0);
+            if descs < 2 && !matches!(op[3] % 8, 0 | 6) {
+                return None;
+            }
             match op[3] % 8 {
                 0 => {
                     lore[e]["pos"] = json!(b(op[2]));
